@@ -239,6 +239,127 @@ theorem dailyGroup_eq (lo : Freq) (hlo : lo ∈ regularFreqs) (s : Ser) (v : Nat
   omega
 
 
+/-- the days of regular period `T`, in calendar order -/
+def days (lo : Freq) (T : Int) : List Int :=
+  (List.range (lastDay lo T - firstDay lo T + 1).toNat).map fun (i : Nat) => firstDay lo T + i
+
+theorem mapM_ok_of_forall {α β} (l : List α) (f : α → R β) (g : α → β) (h : ∀ x ∈ l, f x = .ok (g x)) :
+    l.mapM f = .ok (l.map g) := by
+  induction l with
+  | nil => rfl
+  | cons x xs ih =>
+    rw [List.mapM_cons, h x (by simp), ih (fun y hy => h y (by simp [hy]))]
+    rfl
+
+theorem firstDay_year_start (lo : Freq) (hlo : lo ∈ regularFreqs) (y : Int) :
+    firstDay lo (fromYearSegment lo y 1).serial = ymd2ord y 1 1 ∧
+    lastDay lo (fromYearSegment lo y lo.value).serial = ymd2ord y 12 31 := by
+  have hq : ∀ seg, (⟨lo, (fromYearSegment lo y seg).serial⟩ : Period) = fromYearSegment lo y seg := by
+    intro seg; rcases regular_cases' lo hlo with rfl | rfl | rfl | rfl <;> rfl
+  have hv : 1 ≤ lo.value := by
+    rcases regular_cases' lo hlo with rfl | rfl | rfl | rfl <;> simp [Freq.value, freqYearly, freqHalfyearly, freqQuarterly, freqMonthly]
+  simp only [firstDay, lastDay, hq, dayOrd, toYmd_fromYearSegment' lo hlo y 1 (by omega) hv,
+    toYmd_fromYearSegment' lo hlo y lo.value hv (by omega), bind, Except.bind]
+  rcases regular_cases' lo hlo with rfl | rfl | rfl | rfl <;>
+    simp [mdrTable, lookupSeg, mdrY_start, mdrY_end, mdrH_start, mdrH_end, mdrQ_start, mdrQ_end, mdrM_start, mdrM_end,
+      Freq.value, freqYearly, freqHalfyearly, freqQuarterly, freqMonthly, pure, Except.pure]
+
+theorem firstDay_mono (lo : Freq) (hlo : lo ∈ regularFreqs) (T T' : Int) (h : T ≤ T') :
+    firstDay lo T ≤ firstDay lo T' ∧ lastDay lo T ≤ lastDay lo T' := by
+  rcases Int.lt_or_eq_of_le h with hlt | rfl
+  · have h1 := lastDay_lt_firstDay lo hlo T T' hlt
+    have h2 := (firstDay_lastDay_spec lo hlo T).2.2.1
+    have h3 := (firstDay_lastDay_spec lo hlo T').2.2.1
+    omega
+  · omega
+
+
+/-- **Membership (daily → regular), full pipeline.** For every daily series (any start day, length, year — leap or not —
+variants, NaN pattern), every regular target, method and `discard`: `aggregate` succeeds and, as a period-indexed map,
+its value at every period `T` is the method applied to the values of exactly the days of `T` (`daily_membership`), in
+calendar order. -/
+theorem aggregate_daily_membership (lo : Freq) (hlo : lo ∈ regularFreqs) (s : Ser) (hs : s.freq = .D)
+    (hne : s.rows ≠ []) (m : Method) (d : Bool) :
+    ∃ r, aggregate s lo m d none = .ok r ∧ r.freq = lo ∧ r.nv = s.nv ∧
+      ∀ v, v < s.nv → ∀ T : Int, r.get v T = aggPure d m ((days lo T).map (s.get v)) := by
+  have hlen : 0 < s.rows.length := by cases h : s.rows <;> simp_all
+  have hend : s.start ≤ s.endSerial := by unfold Ser.endSerial; omega
+  have hemp : s.rows.isEmpty = false := by cases h : s.rows <;> simp_all
+  have hreg : lo.isRegular = true := by rcases regular_cases' lo hlo with rfl | rfl | rfl | rfl <;> rfl
+  have hagg : aggregate s lo m d none = aggregateDaily s lo m d none := by
+    unfold aggregate
+    rcases regular_cases' lo hlo with rfl | rfl | rfl | rfl <;>
+      simp [hemp, hs, Freq.value, freqDaily, freqMonthly, freqQuarterly, freqHalfyearly, freqYearly, Freq.isRegular]
+  -- window and output range
+  obtain ⟨hsd, _⟩ := firstDay_year_start lo hlo (yearOf s.start)
+  obtain ⟨_, hed⟩ := firstDay_year_start lo hlo (yearOf s.endSerial)
+  have hy1 := yearOf_spec s.start
+  have hy2 := yearOf_spec s.endSerial
+  have hsd' : ymd2ord (yearOf s.start) 1 1 ≤ s.start := by simp [ymd2ord, dbm]; omega
+  have hed' : s.endSerial ≤ ymd2ord (yearOf s.endSerial) 12 31 := by
+    have := dbm_dec (yearOf s.endSerial); have := dby_succ (yearOf s.endSerial)
+    simp [ymd2ord, daysInMonth] at *; omega
+  generalize hns : (fromYearSegment lo (yearOf s.start) 1).serial = newStart at hsd
+  generalize hne' : (fromYearSegment lo (yearOf s.endSerial) lo.value).serial = newEnd at hed
+  generalize hsdv : ymd2ord (yearOf s.start) 1 1 = sd at hsd hsd'
+  generalize hedv : ymd2ord (yearOf s.endSerial) 12 31 = ed at hed hed'
+  have hrows : aggregateDaily s lo m d none = .ok (Ser.trim ⟨lo, s.nv, newStart,
+      (List.range (newEnd - newStart + 1).toNat).map fun (j : Nat) => (List.range s.nv).map fun (v : Nat) =>
+        aggPure d m ((days lo (newStart + (j : Int))).map (s.get v))⟩) := by
+    unfold aggregateDaily
+    simp only [hreg, Bool.not_true, Bool.false_eq_true, if_false, hns, hne', hsdv, hedv, bind, Except.bind, pure, Except.pure]
+    rw [mapM_ok_of_forall _ _ (fun (j : Nat) => (List.range s.nv).map fun (v : Nat) => aggPure d m ((days lo (newStart + (j : Int))).map (s.get v)))]
+    intro j hj
+    have hj' : j < (newEnd - newStart + 1).toNat := List.mem_range.1 hj
+    have m1 := firstDay_mono lo hlo newStart (newStart + (j : Int)) (by omega)
+    have m2 := firstDay_mono lo hlo (newStart + (j : Int)) newEnd (by omega)
+    rw [mapM_ok_of_forall _ _ (fun (v : Nat) => aggPure d m ((days lo (newStart + (j : Int))).map (s.get v)))]
+    intro v _
+    rw [dailyGroup_eq lo hlo s v sd ed (newStart + (j : Int)) (by omega) (by omega)]
+    simp only [aggWithin_no_select, days, List.map_map]
+    rfl
+  rw [hagg, hrows]
+  refine ⟨_, rfl, rfl, rfl, ?_⟩
+  intro v hv T
+  rw [Ser.get_trim, Ser.get_eq]
+  simp only [rowsGet_table]
+  have hnonempty := (firstDay_lastDay_spec lo hlo T).2.2.1
+  have hall : (∀ t ∈ days lo T, t < s.start ∨ s.endSerial < t) → aggPure d m ((days lo T).map (s.get v)) = none := by
+    intro h
+    unfold days
+    rw [List.map_map]
+    apply aggPure_all_none
+    intro i hi
+    apply Ser.get_outside
+    apply h
+    simp only [days, List.mem_map, List.mem_range]
+    exact ⟨i, hi, rfl⟩
+  have hmem : ∀ t ∈ days lo T, firstDay lo T ≤ t ∧ t ≤ lastDay lo T := by
+    intro t ht
+    simp only [days, List.mem_map, List.mem_range] at ht
+    obtain ⟨i, hi, rfl⟩ := ht
+    omega
+  by_cases c1 : T < newStart
+  · simp only [c1, if_true]
+    symm; apply hall
+    intro t ht
+    have := lastDay_lt_firstDay lo hlo T newStart c1
+    have := hmem t ht
+    left; omega
+  · simp only [c1, if_false]
+    by_cases c2 : (T - newStart).toNat < (newEnd - newStart + 1).toNat
+    · simp only [c2, hv, and_self, if_true]
+      have e : newStart + (((T - newStart).toNat : Nat) : Int) = T := by omega
+      rw [e]
+    · simp only [c2, false_and, if_false]
+      symm; apply hall
+      intro t ht
+      have hlt : newEnd < T := by omega
+      have := lastDay_lt_firstDay lo hlo newEnd T hlt
+      have := hmem t ht
+      right; omega
+
+
 /-! ## 2. What the method sees and returns -/
 
 /-- without `select` the within-period routine never raises and is the pure function `aggPure` -/
@@ -602,6 +723,7 @@ example : (aggregate ⟨.Q, 1, 8081, [[none], [some 2], [some 3], [some 4]]⟩ .
 example : (disaggregate ⟨.Y, 1, 2020, [[some 1], [some 2]]⟩ .Q .middle).map (fun r => (r.start, r.rows))
     = .ok (8082, [[some 1], [none], [none], [none], [some 2]]) := by decide +kernel
 example : ∃ v t, (⟨.Q, 1, 8081, [[some 1], [none], [some 3]]⟩ : Ser).get v t ≠ none := ⟨0, 8081, by decide +kernel⟩
+example : days .M 24241 = (List.range 29).map (fun (i : Nat) => (737456 : Int) + i) := by decide +kernel
 example : firstDay .M 24241 = 737456 ∧ lastDay .M 24241 = 737484 := by decide +kernel     -- February 2020 has 29 days
 example : (DMethod.flat, Method.max) ∈ matchingMethods := by decide
 
